@@ -1,81 +1,470 @@
-"""facts_C16.py -- the source text (normalised by `ast.unparse`, docstrings and comments dropped) of the
-functions that Model/Channel.v transcribes, copied into coq/Gen/FactsC16.v (property C16).
+"""facts_C16.py -- what Model/Channel.v needs to know about grpclib's connection management, stated by MEANING
+and copied into coq/Gen/FactsC16.v (property C16).  Fail-closed: anything not understood raises, the generated
+file disappears and Props/C16.v stops compiling (tie broken).
 
-`ast` only; grpclib is never imported.  Fail-closed: a missing function raises, the generated file
-disappears and Props/C16.v stops compiling (tie broken).  Props/C16.v proves that every generated body
-equals, line by line, the body the model was written from -- any edit of these functions breaks that
-theorem deterministically and sends the check into the failing-input search.
+Two kinds of facts, none of them about spelling:
 
-Functions: client.Channel._connected / __connect__ / close / __aexit__ / __del__, client.Handler.close,
-protocol.EventsProcessor.close / process_connection_terminated, protocol.H2Protocol.connection_lost,
-protocol.Connection.is_closing / close, and the class attribute Channel._protocol = None."""
+(1) PATH facts of `Channel.__connect__` (static: the await structure cannot be probed).  The function is
+    normalised with tools/pynorm.py (docstrings/annotations dropped, private helpers -- sync, or coroutines
+    awaited at once -- inlined, tests in NNF, early-return form, temporaries inlined) and then every control path
+    is enumerated as a sequence of events:
+        T1/T0   the channel's "connected" property evaluated to true / false
+        ACQ/REL the channel's asyncio.Lock acquired / released (`async with`, or acquire()/release())
+        CREATE  `await <loop>.create_connection(...)` / `create_unix_connection(...)`   (the only other await allowed)
+        OK      ... returned;  EXC  ... raised an Exception that a handler caught;  ESC  ... raised something no
+                handler caught (CancelledError);  RERAISE  bare `raise` in the handler
+        STORE   the protocol returned by CREATE is stored into the channel's protocol attribute
+        CLEAR   any other assignment to that attribute;  RET  `return <the protocol attribute>` (no re-check)
+    Assignments of constants to other attributes (`_state` bookkeeping) and pure configuration tests
+    (`self._path is not None`) are not events.  What the proofs use: the connected test is evaluated first and the
+    fast path returns without await; the test is re-evaluated after acquiring the lock; exactly one CREATE, inside
+    the lock, and no other await inside the lock; the protocol is stored only after a successful CREATE with no
+    await in between; an Exception of CREATE is re-raised to this caller with the lock released and nothing stored;
+    the function returns the stored attribute without re-checking.
+    Roles are found, not named: the lock is the attribute used in `async with self.<L>` (checked by value to be an
+    asyncio.Lock), the protocol attribute is the STORE target (and must be what RET returns and what the probes
+    below set), the connected property is the property the tests read.
+
+(2) PROBED facts (by value: the modules of the repository under test are imported and REAL objects are driven
+    through their public methods over a fake transport): a real H2Protocol(Handler(), config, h2 config) after
+    connection_made(fake transport), with two streams registered through processor.register(); then, per state
+        fresh | connection_lost delivered | Connection.close() ran (keepalive) | transport closing |
+        GOAWAY received (error code x last_stream_id, incl. NO_ERROR/2**31-1)
+    * the value of the channel's connected property                         (`_connected` is the conjunction of:
+      protocol present, handler not closed, connection not closing)
+    * whether every registered stream was terminated, whether transport.close() was called
+    * the effect of Channel.close() in that state: every registered stream terminated, transport closed (once),
+      the channel holds no protocol and is not connected afterwards, a second close() is harmless; the same for
+      `__aexit__`
+    * Connection.close() is idempotent (one transport.close()), is_closing() afterwards
+"""
 import ast
+import asyncio
+import os
 
-from extract_facts import Unsupported, parse, func_node, class_node, zs
+import pynorm
+from extract_facts import Unsupported, parse, class_node, load
 
-FUNCS = [
-    ('client', 'Channel', '_connected'),
-    ('client', 'Channel', '__connect__'),
-    ('client', 'Channel', 'close'),
-    ('client', 'Channel', '__aexit__'),
-    ('client', 'Channel', '__del__'),
-    ('client', 'Handler', 'close'),
-    ('protocol', 'EventsProcessor', 'close'),
-    ('protocol', 'EventsProcessor', 'process_connection_terminated'),
-    ('protocol', 'H2Protocol', 'connection_lost'),
-    ('protocol', 'Connection', 'is_closing'),
-    ('protocol', 'Connection', 'close'),
-]
+T1, T0, ACQ, REL, CREATE, OK, EXC, ESC, STORE, RERAISE, RET, RAISE_OTHER, CLEAR = range(1, 14)
+CREATE_NAMES = ('create_connection', 'create_unix_connection')
 
 
-def body_lines(fn):
-    body = list(fn.body)
-    if body and isinstance(body[0], ast.Expr) and isinstance(body[0].value, ast.Constant) \
-            and isinstance(body[0].value.value, str):
-        body = body[1:]
-    if not body:
-        raise Unsupported('empty body of ' + fn.name)
-    lines = []
-    for st in body:
-        lines += ast.unparse(st).split('\n')
-    return lines
+# ------------------------------------------------------------------------------------------------
+# (1) paths of Channel.__connect__
+
+def _is_self_attr(e):
+    return isinstance(e, ast.Attribute) and isinstance(e.value, ast.Name) and e.value.id == 'self'
 
 
-def class_attr(tree, cls, name):
-    c = class_node(tree, cls)
-    for n in c.body:
-        if isinstance(n, ast.Assign) and len(n.targets) == 1 and isinstance(n.targets[0], ast.Name) \
-                and n.targets[0].id == name:
-            return ast.unparse(n.value)
-    raise Unsupported('%s.%s not a class attribute' % (cls, name))
+def _pure(e):
+    for n in ast.walk(e):
+        if isinstance(n, (ast.Call, ast.Await, ast.Yield, ast.YieldFrom, ast.NamedExpr, ast.Lambda)):
+            return False
+    return True
+
+
+class Paths:
+    def __init__(self, cls_node):
+        self.props = set()
+        for m in cls_node.body:
+            if isinstance(m, ast.FunctionDef) and any(
+                    isinstance(d, ast.Name) and d.id == 'property' for d in m.decorator_list):
+                self.props.add(m.name)
+        self.atoms = set()
+        self.locks = set()
+        self.stores = set()
+        self.sets = []           # (attr) of constant assignments, decided after the walk
+        self.rets = set()
+
+    # each walker returns a list of (tokens, outcome, env) ; outcome: 'fall' | 'return' | ('raise', kind)
+    def seq(self, body, env):
+        states = [([], 'fall', env)]
+        for st in body:
+            nxt = []
+            for toks, out, e in states:
+                if out != 'fall':
+                    nxt.append((toks, out, e))
+                    continue
+                for t2, o2, e2 in self.stmt(st, e):
+                    nxt.append((toks + t2, o2, e2))
+            states = nxt
+        return states
+
+    def is_create(self, e):
+        return (isinstance(e, ast.Await) and isinstance(e.value, ast.Call)
+                and isinstance(e.value.func, ast.Attribute) and e.value.func.attr in CREATE_NAMES)
+
+    def lock_of(self, e, env):
+        if isinstance(e, ast.Name) and e.id in env.get('alias', {}):
+            e = env['alias'][e.id]
+        if _is_self_attr(e):
+            return e.attr
+        return None
+
+    def test_atom(self, t):
+        """(prop, polarity) if the test is `self.<property>` or its negation"""
+        pol = True
+        while isinstance(t, ast.UnaryOp) and isinstance(t.op, ast.Not):
+            t, pol = t.operand, not pol
+        if _is_self_attr(t) and t.attr in self.props:
+            return t.attr, pol
+        return None
+
+    def stmt(self, st, env):
+        if isinstance(st, ast.Pass):
+            return [([], 'fall', env)]
+        if isinstance(st, ast.If):
+            atom = self.test_atom(st.test)
+            if atom is not None:
+                prop, pol = atom
+                self.atoms.add(prop)
+                out = []
+                for val in (True, False):          # value of the property
+                    branch = st.body if val == pol else st.orelse
+                    for t, o, e in self.seq(branch, env):
+                        out.append(([T1 if val else T0] + t, o, e))
+                return out
+            if not _pure(st.test) or any(_is_self_attr(n) and n.attr in self.props for n in ast.walk(st.test)):
+                raise Unsupported('test not understood: ' + ast.unparse(st.test))
+            return self.seq(st.body, env) + self.seq(st.orelse, env)
+        if isinstance(st, ast.AsyncWith):
+            if len(st.items) != 1 or st.items[0].optional_vars is not None:
+                raise Unsupported('async with shape')
+            lk = self.lock_of(st.items[0].context_expr, env)
+            if lk is None:
+                raise Unsupported('async with on ' + ast.unparse(st.items[0].context_expr))
+            self.locks.add(lk)
+            return [([ACQ] + t + [REL], o, e) for t, o, e in self.seq(st.body, env)]
+        if isinstance(st, ast.Try):
+            return self.try_(st, env)
+        if isinstance(st, ast.Return):
+            v = st.value
+            if isinstance(v, ast.Call) and isinstance(v.func, ast.Name) and v.func.id == 'cast' and len(v.args) == 2:
+                v = v.args[1]
+            if v is not None and _is_self_attr(v):
+                self.rets.add(v.attr)
+                return [([RET], 'return', env)]
+            raise Unsupported('return of ' + (ast.unparse(st.value) if st.value else 'None'))
+        if isinstance(st, ast.Raise):
+            if st.exc is None:
+                kind = env.get('handling')
+                if kind is None:
+                    raise Unsupported('bare raise outside a handler')
+                return [([RERAISE], ('raise', kind), env)]
+            return [([RAISE_OTHER], ('raise', 'E'), env)]
+        if isinstance(st, ast.Expr):
+            v = st.value
+            if isinstance(v, ast.Await) and isinstance(v.value, ast.Call) and isinstance(v.value.func, ast.Attribute) \
+                    and v.value.func.attr == 'acquire':
+                lk = self.lock_of(v.value.func.value, env)
+                if lk is None:
+                    raise Unsupported('acquire on ' + ast.unparse(v.value.func.value))
+                self.locks.add(lk)
+                return [([ACQ], 'fall', env)]
+            if isinstance(v, ast.Call) and isinstance(v.func, ast.Attribute) and v.func.attr == 'release':
+                lk = self.lock_of(v.func.value, env)
+                if lk is None:
+                    raise Unsupported('release on ' + ast.unparse(v.func.value))
+                self.locks.add(lk)
+                return [([REL], 'fall', env)]
+            if self.is_create(v):
+                return self.create(env, None)
+            raise Unsupported('expression statement ' + ast.unparse(v))
+        if isinstance(st, ast.Assign) and len(st.targets) == 1:
+            tgt, v = st.targets[0], st.value
+            if self.is_create(v):
+                return self.create(env, tgt)
+            if _is_self_attr(tgt):
+                # value derived from the result of CREATE?
+                derived = any(isinstance(n, ast.Name) and n.id in env.get('res', ()) for n in ast.walk(v))
+                if derived:
+                    self.stores.add(tgt.attr)
+                    return [([STORE], 'fall', env)]
+                if not _pure(v):
+                    raise Unsupported('assignment ' + ast.unparse(st))
+                self.sets.append(tgt.attr)
+                return [([('SET', tgt.attr)], 'fall', env)]
+            if isinstance(tgt, ast.Name) and _pure(v):
+                e2 = dict(env)
+                if any(isinstance(n, ast.Name) and n.id in env.get('res', ()) for n in ast.walk(v)):
+                    e2['res'] = set(env.get('res', ())) | {tgt.id}
+                else:
+                    al = dict(env.get('alias', {}))
+                    al[tgt.id] = v
+                    e2['alias'] = al
+                return [([], 'fall', e2)]
+            raise Unsupported('assignment ' + ast.unparse(st))
+        raise Unsupported('statement ' + type(st).__name__ + ': ' + ast.unparse(st)[:80])
+
+    def create(self, env, tgt):
+        """`[tgt =] await loop.create_connection(...)`: returns, raises an Exception, raises a BaseException"""
+        out = []
+        e_ok = dict(env)
+        toks = [CREATE, OK]
+        if tgt is not None:
+            names = [n.id for n in ast.walk(tgt) if isinstance(n, ast.Name)]
+            if _is_self_attr(tgt):
+                self.stores.add(tgt.attr)
+                toks.append(STORE)
+            elif names:
+                e_ok['res'] = set(env.get('res', ())) | set(names)
+            else:
+                raise Unsupported('target of the connection attempt')
+        out.append((toks, 'fall', e_ok))
+        out.append(([CREATE], ('raise', 'E'), env))
+        out.append(([CREATE], ('raise', 'B'), env))
+        return out
+
+    def try_(self, st, env):
+        def catches(h, kind):
+            if h.type is None:
+                return True
+            if isinstance(h.type, ast.Name) and h.type.id == 'BaseException':
+                return True
+            if isinstance(h.type, ast.Name) and h.type.id == 'Exception':
+                return kind == 'E'
+            raise Unsupported('except clause ' + ast.unparse(h.type))
+        res = []
+        for toks, out, e in self.seq(st.body, env):
+            if isinstance(out, tuple):
+                kind = out[1]
+                h = next((h for h in st.handlers if catches(h, kind)), None)
+                if h is None:
+                    res.append((toks, out, e))
+                    continue
+                if h.name is not None:
+                    raise Unsupported('named exception handler')
+                e2 = dict(e)
+                e2['handling'] = kind
+                for t2, o2, e3 in self.seq(h.body, e2):
+                    e4 = dict(e3)
+                    e4.pop('handling', None)
+                    res.append((toks + [EXC] + t2, o2, e4))
+            elif out == 'fall':
+                for t2, o2, e3 in self.seq(st.orelse, e):
+                    res.append((toks + t2, o2, e3))
+            else:
+                res.append((toks, out, e))
+        if st.finalbody:
+            fin = []
+            for toks, out, e in res:
+                for t2, o2, e3 in self.seq(st.finalbody, e):
+                    fin.append((toks + t2, out if o2 == 'fall' else o2, e3))
+            res = fin
+        return res
+
+
+def connect_paths(repo):
+    tree = parse(repo, 'grpclib/client.py')
+    try:
+        fn = pynorm.canonical_function(tree, 'Channel', '__connect__', rename=False)
+    except pynorm.Unsupported as e:
+        raise Unsupported('pynorm: %s' % e)
+    if not isinstance(fn, ast.AsyncFunctionDef):
+        raise Unsupported('__connect__ is not a coroutine function')
+    p = Paths(class_node(pynorm.strip_noise(tree), 'Channel'))
+    states = p.seq(fn.body, {})
+    if len(p.atoms) != 1 or len(p.locks) != 1 or len(p.stores) != 1:
+        raise Unsupported('roles not unique: connected=%s lock=%s protocol=%s' % (p.atoms, p.locks, p.stores))
+    proto = next(iter(p.stores))
+    if p.rets != {proto}:
+        raise Unsupported('__connect__ returns %s, stores %s' % (p.rets, proto))
+    paths = set()
+    for toks, out, _ in states:
+        t = []
+        for x in toks:
+            if isinstance(x, tuple):
+                if x[1] == proto:
+                    t.append(CLEAR)
+                continue
+            t.append(x)
+        if isinstance(out, tuple) and out[1] == 'B' and RERAISE not in t and EXC not in t:
+            # an escaping BaseException: mark where it left (after CREATE), then the unwinding events follow
+            i = len(t) - 1 - t[::-1].index(CREATE)
+            t = t[:i + 1] + [ESC] + t[i + 1:]
+        if out == 'fall':
+            raise Unsupported('a path of __connect__ ends without return')
+        if RET in t:
+            # the value reaches the caller after every unwinding event (`return` inside try/finally or inside
+            # `async with` releases first)
+            if t.count(RET) != 1:
+                raise Unsupported('two returns on one path')
+            t = [x for x in t if x != RET] + [RET]
+        paths.add(tuple(t))
+    return sorted(paths), next(iter(p.atoms)), next(iter(p.locks)), proto
+
+
+# ------------------------------------------------------------------------------------------------
+# (2) probes on real objects
+
+class FakeTransport:
+    def __init__(self):
+        self.closing = False
+        self.close_calls = 0
+        self.written = 0
+
+    def write(self, data):
+        self.written += len(data)
+
+    def is_closing(self):
+        return self.closing
+
+    def close(self):
+        self.close_calls += 1
+        self.closing = True
+
+    def get_extra_info(self, name, default=None):
+        return default
+
+    def abort(self):
+        self.close()
+
+
+class FakeStream:
+    def __init__(self, sid):
+        self.id = sid
+        self.terminated = 0
+        self.wrapper = None
+
+    def __terminated__(self, reason):
+        self.terminated += 1
+
+
+def goaway_bytes(code, last, debug):
+    from hyperframe.frame import SettingsFrame, GoAwayFrame
+    return SettingsFrame(0).serialize() + GoAwayFrame(0, last_stream_id=last, error_code=code,
+                                                      additional_data=debug).serialize()
+
+
+STATES = [('fresh', None), ('lost', None), ('kaclose', None), ('tr_closing', None),
+          ('goaway', (0, 0, b'')), ('goaway', (0, 2 ** 31 - 1, b'')), ('goaway', (0, 2 ** 31 - 1, b'bye')),
+          ('goaway', (2, 1, b'')), ('goaway', (11, 2 ** 31 - 1, b'x'))]
+
+
+def probes(repo, connected_prop, proto_attr, lock_attr):
+    import logging
+    logging.disable(logging.CRITICAL)
+    client = load(repo, 'grpclib.client')
+    protocol = load(repo, 'grpclib.protocol')
+    config = load(repo, 'grpclib.config')
+    from h2.config import H2Configuration
+    loop = asyncio.new_event_loop()
+    try:
+        asyncio.set_event_loop(loop)
+
+        def mk():
+            cfg = config.Configuration().__for_client__()
+            h2c = H2Configuration(client_side=True, header_encoding='ascii', validate_inbound_headers=False,
+                                  validate_outbound_headers=False, normalize_inbound_headers=False,
+                                  normalize_outbound_headers=False)
+            p = protocol.H2Protocol(client.Handler(), cfg, h2c)
+            tr = FakeTransport()
+            p.connection_made(tr)
+            streams = [FakeStream(1), FakeStream(3)]
+            for s in streams:
+                p.processor.register(s)
+            ch = client.Channel()
+            if not isinstance(getattr(ch, lock_attr, None), asyncio.Lock):
+                raise Unsupported('Channel.%s is not an asyncio.Lock' % lock_attr)
+            if getattr(ch, proto_attr, 'missing') is not None:
+                raise Unsupported('a new Channel already holds a protocol')
+            if getattr(ch, connected_prop) is not False:
+                raise Unsupported('a new Channel claims to be connected')
+            setattr(ch, proto_attr, p)
+            return ch, p, tr, streams
+
+        def drive(p, tr, state, arg):
+            if state == 'lost':
+                p.connection_lost(None)
+            elif state == 'kaclose':
+                p.connection.close()
+            elif state == 'tr_closing':
+                tr.closing = True
+            elif state == 'goaway':
+                p.data_received(goaway_bytes(*arg))
+
+        connected, after_state, after_close, after_aexit = [], [], [], []
+        for state, arg in STATES:
+            ch, p, tr, streams = mk()
+            drive(p, tr, state, arg)
+            connected.append(int(bool(getattr(ch, connected_prop))))
+            after_state.append([int(all(s.terminated for s in streams)), int(tr.close_calls > 0),
+                                int(bool(p.connection.is_closing()))])
+            # Channel.close() in that state
+            lock0 = getattr(ch, lock_attr)
+            ch.close()
+            row = [int(all(s.terminated for s in streams)), tr.close_calls,
+                   int(getattr(ch, proto_attr, None) is None), int(bool(getattr(ch, connected_prop)))]
+            ch.close()
+            row.append(tr.close_calls)
+            row.append(int(getattr(ch, lock_attr, None) is lock0))      # close() keeps the channel's lock
+            after_close.append(row)
+            # the same through `async with channel` exit
+            ch, p, tr, streams = mk()
+            drive(p, tr, state, arg)
+            lock0 = getattr(ch, lock_attr)
+            co = ch.__aexit__(None, None, None)
+            try:
+                co.send(None)
+                raise Unsupported('Channel.__aexit__ suspends')
+            except StopIteration:
+                pass
+            after_aexit.append([int(all(s.terminated for s in streams)), tr.close_calls,
+                                int(getattr(ch, proto_attr, None) is None), int(bool(getattr(ch, connected_prop))),
+                                int(getattr(ch, lock_attr, None) is lock0)])
+        # a channel without protocol
+        ch = client.Channel()
+        ch.close()
+        none_row = [int(getattr(ch, proto_attr, None) is None), int(bool(getattr(ch, connected_prop)))]
+        # Connection.close() twice; delivered connection_lost after Connection.close(); loss twice
+        ch, p, tr, streams = mk()
+        p.connection.close()
+        p.connection.close()
+        conn_row = [tr.close_calls, int(bool(p.connection.is_closing())), int(any(s.terminated for s in streams))]
+        p.connection_lost(None)
+        p.connection_lost(None)
+        conn_row += [int(all(s.terminated for s in streams)), tr.close_calls, int(bool(getattr(ch, connected_prop)))]
+        return connected, after_state, after_close, after_aexit, none_row, conn_row
+    finally:
+        try:
+            loop.close()
+        finally:
+            asyncio.set_event_loop(None)
+        logging.disable(logging.NOTSET)
+
+
+# ------------------------------------------------------------------------------------------------
+
+def zl(l):
+    return '[' + '; '.join(str(int(x)) for x in l) + ']'
+
+
+def zll(ll):
+    return '[' + ';\n   '.join(zl(l) for l in ll) + ']'
 
 
 def generate(repo):
-    trees = {'client': parse(repo, 'grpclib/client.py'), 'protocol': parse(repo, 'grpclib/protocol.py')}
+    paths, connected_prop, lock_attr, proto_attr = connect_paths(repo)
+    connected, after_state, after_close, after_aexit, none_row, conn_row = probes(
+        repo, connected_prop, proto_attr, lock_attr)
     out = ['(* GENERATED by tools/facts_C16.py from grpclib/client.py, grpclib/protocol.py -- do not edit *)',
-           'From Coq Require Import ZArith List.', 'Import ListNotations.', 'Open Scope Z_scope.']
-    for mod, cls, name in FUNCS:
-        fn = func_node(trees[mod], name, cls)
-        if fn is None:
-            raise Unsupported('%s.%s.%s not found' % (mod, cls, name))
-        lines = body_lines(fn)
-        for ln in lines:
-            if any(ord(ch) > 126 or ord(ch) < 32 for ch in ln):
-                raise Unsupported('non-printable character in %s.%s' % (cls, name))
-        out.append('Definition src_%s_%s : list (list Z) :=\n  [%s].' % (
-            cls, name.strip('_'), ';\n   '.join(zs(ln) for ln in lines)))
-        dec = [ast.unparse(d) for d in fn.decorator_list]
-        out.append('Definition dec_%s_%s : list (list Z) := [%s].' % (cls, name.strip('_'),
-                                                                     '; '.join(zs(d) for d in dec)))
-        out.append('Definition async_%s_%s : bool := %s.' % (
-            cls, name.strip('_'), 'true' if isinstance(fn, ast.AsyncFunctionDef) else 'false'))
-    out.append('Definition channel_protocol_class_attr : list Z := %s.' %
-               zs(class_attr(trees['client'], 'Channel', '_protocol')))
-    out.append('Definition handler_connection_lost_class_attr : list Z := %s.' %
-               zs(class_attr(trees['client'], 'Handler', 'connection_lost')))
+           'From Coq Require Import ZArith List.', 'Import ListNotations.', 'Open Scope Z_scope.',
+           '(* events: T1=1 T0=2 ACQ=3 REL=4 CREATE=5 OK=6 EXC=7 ESC=8 STORE=9 RERAISE=10 RET=11 RAISE_OTHER=12 CLEAR=13 *)',
+           'Definition connect_paths : list (list Z) :=\n  %s.' % zll(paths),
+           '(* states: fresh, connection_lost, Connection.close(), transport closing, GOAWAY x5 *)',
+           'Definition connected_by_state : list Z := %s.' % zl(connected),
+           '(* per state: all registered streams terminated, transport.close() called, connection.is_closing() *)',
+           'Definition effects_by_state : list (list Z) :=\n  %s.' % zll(after_state),
+           '(* Channel.close() in that state: streams terminated, transport.close() calls, holds no protocol, connected,'
+           ' transport.close() calls after a second close(), the lock object is unchanged *)',
+           'Definition close_by_state : list (list Z) :=\n  %s.' % zll(after_close),
+           'Definition aexit_by_state : list (list Z) :=\n  %s.' % zll(after_aexit),
+           'Definition close_without_protocol : list Z := %s.' % zl(none_row),
+           '(* Connection.close() x2: transport.close() calls, is_closing, any stream terminated; then connection_lost x2:'
+           ' all terminated, transport.close() calls, connected *)',
+           'Definition connection_close_twice : list Z := %s.' % zl(conn_row)]
     return '\n'.join(out) + '\n'
 
 
 if __name__ == '__main__':
-    import os
     print(generate(os.environ.get('VERIF_REPO', '/repo')))
